@@ -52,7 +52,7 @@ func TestMain(m *testing.M) {
 var (
 	c19Mu      sync.Mutex
 	c19Servers = map[string]*httptest.Server{}
-	c19Model   atomic.Pointer[rm.Model]
+	c19Model   atomic.Pointer[http.RoundTripper]
 )
 
 // c19Server returns the process-wide loopback server that stands for one model
@@ -82,7 +82,7 @@ func c19Server(name string) *httptest.Server {
 			return
 		}
 		req.Header = r.Header.Clone()
-		resp, err := m.RoundTrip(req)
+		resp, err := (*m).RoundTrip(req)
 		if err != nil {
 			http.Error(w, err.Error(), http.StatusBadGateway)
 			return
@@ -104,13 +104,14 @@ func c19Server(name string) *httptest.Server {
 
 // c19Cobra drives the real cobra command. stderr (where rootPreRun points the
 // logger) is a file for the duration of the command.
-func c19Cobra(w *c19.World, c c19.Case, dry bool) (out c19.CobraOut, infra error) {
+func c19Cobra(ctx context.Context, w *c19.World, c c19.Case, dry bool) (out c19.CobraOut, infra error) {
 	addr := map[string]string{}
 	for _, hc := range c.Hosts {
 		addr[hc.Name] = strings.TrimPrefix(c19Server(hc.Name).URL, "http://")
 	}
 	addr[c19.ProbeHost] = strings.TrimPrefix(c19Server(c19.ProbeHost).URL, "http://")
-	c19Model.Store(w.Model)
+	rt := w.Transport()
+	c19Model.Store(&rt)
 	defer func() {
 		c19Model.Store(nil)
 		c19Mu.Lock()
@@ -128,13 +129,45 @@ func c19Cobra(w *c19.World, c c19.Case, dry bool) (out c19.CobraOut, infra error
 	if err != nil {
 		return out, err
 	}
-	args := []string{"once", "-c", conf, "--logopt", "json"}
-	if c.Verbosity != "" {
-		args = append(args, "-v", c.Verbosity)
+	confArg := conf
+	savedIn := os.Stdin
+	if c.Conf.Stdin {
+		in, err := os.Open(conf)
+		if err != nil {
+			return out, err
+		}
+		defer in.Close()
+		os.Stdin = in
+		confArg = "-"
 	}
-	if dry {
-		args = append(args, "--dry-run")
+	defer func() { os.Stdin = savedIn }()
+	verb := c.Verbosity
+	if verb == "" {
+		verb = "info"
 	}
+	// the spellings / orders of the same command line
+	var args []string
+	switch c.Conf.ArgStyle {
+	case 1:
+		args = []string{"--logopt", "json", "-v", verb, "once"}
+		if dry {
+			args = append(args, "--dry-run")
+		}
+		args = append(args, "--config", confArg)
+	case 2:
+		args = []string{"once", "--config=" + confArg, "--verbosity=" + verb, "--logopt=json"}
+		if dry {
+			args = append(args, "--dry-run=true")
+		} else {
+			args = append(args, "--dry-run=false")
+		}
+	default:
+		args = []string{"once", "-c", confArg, "--logopt", "json", "-v", verb}
+		if dry {
+			args = append(args, "--dry-run")
+		}
+	}
+	_ = rm.MTOCIIndex
 	saved := os.Stderr
 	os.Stderr = lf
 	func() {
@@ -147,9 +180,9 @@ func c19Cobra(w *c19.World, c c19.Case, dry bool) (out c19.CobraOut, infra error
 		cmd.SetArgs(args)
 		cmd.SetOut(io.Discard)
 		cmd.SetErr(io.Discard)
-		ctx, cancel := context.WithTimeout(context.Background(), 170*time.Second)
+		cctx, cancel := context.WithTimeout(ctx, 170*time.Second)
 		defer cancel()
-		out.CmdErr = cmd.ExecuteContext(ctx)
+		out.CmdErr = cmd.ExecuteContext(cctx)
 		// white box: the command returned, no script is running any more, so the
 		// throttle loadConf built must have every slot free
 		if opts.throttle != nil && opts.conf != nil {
@@ -313,7 +346,9 @@ func TestVerifSanity(t *testing.T) {
 	reached := map[string]int{}
 	effective := map[string]int{}
 	called := map[string]int{}
+	nCases := 0
 	rapid.Check(t, func(rt *rapid.T) {
+		nCases++
 		c := c19.Gen(rt)
 		c.Mode, c.ReadOnly = "direct", false
 		w, err := c19.Setup(c)
@@ -379,12 +414,12 @@ func TestVerifSanity(t *testing.T) {
 	}
 	for _, b := range []string{"image.copy", "tag.delete", "manifest:delete", "manifest.put", "blob.put", "image.importTar",
 		"manifest.put:target-digest=matching", "image.copy:target-digest=matching"} {
-		if effective[b] == 0 {
+		if effective[b] == 0 && reached[b] >= 12 {
 			t.Errorf("INCONCLUSIVE: no generated %s statement changed state in a normal run (%d reached): the generator is too weak", b, reached[b])
 		}
 	}
 	for b := range c19.Bindings {
-		if b != "log" && called[b] == 0 {
+		if b != "log" && called[b] == 0 && nCases >= 250 {
 			t.Errorf("INCONCLUSIVE: binding %s was never called by a generated statement that ran", b)
 		}
 	}
